@@ -234,6 +234,7 @@ type backendCall struct {
 	CtxErr   error
 	At       int64 // virtual unix nanos at call time
 	DoneCh   <-chan struct{}
+	Gate     string
 }
 
 type backend struct {
@@ -244,7 +245,15 @@ type backend struct {
 	now   func() int64
 	evNow func() int
 	// reject is consulted before parking: a non-nil result answers the call immediately (used for zombies)
-	reject func() error
+	reject  func() error
+	seenKey map[string]int
+	byGate  map[string]*backendCall
+}
+
+func (b *backend) byGateID(id string) *backendCall {
+	b.mu.Lock()
+	defer b.mu.Unlock()
+	return b.byGate[id]
 }
 
 func newBackend(ad *sigAdapter, now func() int64) *backend {
@@ -258,6 +267,21 @@ func (b *backend) push(ctx context.Context, p any) error {
 		c.Start = b.evNow()
 	}
 	b.calls = append(b.calls, c)
+	// The gate id is a stable identity (smallest item id + how many calls carried it so far), never the arrival
+	// order: with several consumers two calls may begin in the same step in either order.
+	key := "empty"
+	for id := range c.Items {
+		if key == "empty" || id < key {
+			key = id
+		}
+	}
+	if b.seenKey == nil {
+		b.seenKey = map[string]int{}
+		b.byGate = map[string]*backendCall{}
+	}
+	b.seenKey[key]++
+	c.Gate = fmt.Sprintf("call:%s#%d", key, b.seenKey[key])
+	b.byGate[c.Gate] = c
 	rej := b.reject
 	b.mu.Unlock()
 	if rej != nil {
@@ -265,7 +289,7 @@ func (b *backend) push(ctx context.Context, p any) error {
 			return err
 		}
 	}
-	v, ok := b.gate.ParkCtx(fmt.Sprintf("call:%04d", c.N), ctx.Done())
+	v, ok := b.gate.ParkCtx(c.Gate, ctx.Done())
 	if !ok {
 		b.mu.Lock()
 		c.Answered = true
@@ -297,9 +321,7 @@ func (b *backend) snapshot() []*backendCall {
 
 // answer releases the parked call with the given outcome.
 func (b *backend) answer(gateID string, outcome error) *backendCall {
-	var n int
-	fmt.Sscanf(gateID, "call:%d", &n)
-	c := b.call(n)
+	c := b.byGateID(gateID)
 	b.mu.Lock()
 	c.Answered = true
 	c.Outcome = outcome
